@@ -354,7 +354,8 @@ def model_lines(cid, case, res):
     lines = [f'case {cid} lim={case["lim"]}']
     lines.append('recs ' + (';'.join(res['recs_hex']) or '-'))
     lines.append('wire ' + res['wire_hex'])
-    lines.append('feed ' + res['feed_hex'])
-    lines.append(f'got {res["end"]} ' + (';'.join(res['got_hex']) or '-'))
+    # `=`: same bytes / same records as above (the driver compares structurally; saves re-parsing big hex)
+    lines.append('feed ' + ('=' if res['feed_hex'] == res['wire_hex'] else res['feed_hex']))
+    lines.append(f'got {res["end"]} ' + ('=' if res['got_hex'] == res['recs_hex'] else (';'.join(res['got_hex']) or '-')))
     lines.append('end')
     return lines
